@@ -838,6 +838,7 @@ def exec (md : Module) (ins : Instr) (orc : Oracle) : M Unit := do
   | .ID_DIM_LOCAL => do
     let a ← rdAddr (sp - (i32 ins.w0 - i32 ins.w1))
     let array ← getArrRef a
+    if array == 0 then raise 8 else   -- (nil test added by the `fix:` commit 7100a94)
     let (dv, _) ← getArrObj array
     let d ← match dv[ins.w2]? with | some (e, _) => pure e | none => crash "dimension index out of bounds"
     pushAddr (← alloc (.int (BitVec.ofNat 32 d)))
@@ -992,6 +993,7 @@ def exec (md : Module) (ins : Instr) (orc : Oracle) : M Unit := do
   | .SLICE_STRING => do
     let str ← getStrRef (← rdAddr (sp - 1))
     let range ← getVecRef (← rdAddr sp)
+    if str == 0 ∨ range == 0 then raise 8 else   -- (nil test added by the `fix:` commit bd0855c; the pinned code dereferenced cell 0)
     let (f, t) ← rangePair range 0
     let s ← getStr str
     match Idx.sliceString s f t with
